@@ -404,7 +404,6 @@ impl PartialServerInfo {
         if self.info.info_version == ServerInfoVersion::V6Ex && self.received & 1 == 0 {
             mem::swap(self, &mut other);
         }
-        self.received |= other.received;
         self.info.clients.extend(other.info.clients.into_iter());
 
         Ok(())
